@@ -525,6 +525,30 @@ fn gen_value(r: &mut Rng, pool: &[&[u8]], alphabet: &[u8]) -> Vec<u8> {
         (0..n).map(|_| *r.pick(alphabet)).collect()
     }
 }
+/// long peer-supplied values: lengths around every power of two / round constant a reader might
+/// slice, truncate or preview at, filled with one ASCII byte, with multi-byte UTF-8 sequences and
+/// invalid bytes placed so that they STRADDLE such an offset, and a tail that makes the field
+/// undecodable (or not, for the decodable half)
+fn gen_long_value(r: &mut Rng, filler: u8, tails: &[&[u8]]) -> Vec<u8> {
+    const MARKS: &[usize] = &[8, 15, 16, 31, 32, 48, 63, 64, 65, 80, 100, 127, 128, 200, 255, 256, 512, 1000, 1024, 4096];
+    const SEQS: &[&[u8]] = &[b"\xc3\xa9", b"\xe2\x82\xac", b"\xf0\x9f\x98\x80", b"\xff", b"\xc3", b"\xe2\x82"];
+    let mark = *r.pick(MARKS);
+    let n = mark + r.below(8) as usize;
+    let mut v = vec![filler; n];
+    for _ in 0..r.range(1, 3) {
+        let seq = *r.pick(SEQS);
+        let around = if r.chance(3, 4) { mark } else { *r.pick(MARKS) };
+        // start so that the sequence covers offset `around` (or ends / begins exactly there)
+        let back = r.below(seq.len() as u64 + 1) as usize;
+        let at = around.saturating_sub(back).min(v.len());
+        for (i, b) in seq.iter().enumerate() {
+            if at + i < v.len() { v[at + i] = *b; } else { v.push(*b); }
+        }
+    }
+    let tail: &[u8] = *r.pick(tails);
+    v.extend_from_slice(tail);
+    v
+}
 fn case_hostile(out: &mut Out, entries: Vec<(String, Vec<u8>)>, corpus: bool) {
     let mut hm = HeaderMap::new();
     for (k, v) in &entries {
@@ -1564,10 +1588,18 @@ fn main() {
             e.push(("grpc-status".into(), gen_value(&mut r, CODE_VALUES, b"0123456789")));
         }
         if r.chance(2, 3) {
-            e.push(("grpc-message".into(), gen_value(&mut r, MSG_VALUES, b"%0123456789abcdefABCDEFgG z\xc3\xa9\xff")));
+            if r.chance(1, 4) {
+                e.push(("grpc-message".into(), gen_long_value(&mut r, b'a', &[b"", b"%ff", b"%", b"%zz", b"%c3", b"%41"])));
+            } else {
+                e.push(("grpc-message".into(), gen_value(&mut r, MSG_VALUES, b"%0123456789abcdefABCDEFgG z\xc3\xa9\xff")));
+            }
         }
         if r.chance(2, 3) {
-            e.push(("grpc-status-details-bin".into(), gen_value(&mut r, DET_VALUES, b"ABCDQRZabcz019+/= !")));
+            if r.chance(1, 4) {
+                e.push(("grpc-status-details-bin".into(), gen_long_value(&mut r, b'A', &[b"", b"!", b"=", b"A", b"=="])));
+            } else {
+                e.push(("grpc-status-details-bin".into(), gen_value(&mut r, DET_VALUES, b"ABCDQRZabcz019+/= !")));
+            }
         }
         for _ in 0..r.below(3) {
             e.push((r.pick(&extra_keys).to_string(), gen_ascii_value(&mut r).into_bytes()));
